@@ -16,7 +16,7 @@ THEOREMS = [
     "C02_any_arrangement",
     "C02_add_refuses_mismatch",
 ]
-CORR_OPS = ["gmm_estep:whole", "gmm_estep:per_block", "gmm_estep:fold_add", "gmm_estep:fold_iadd", "gmm_estep:dask",
+CORR_OPS = ["gmm_estep:whole", "gmm_estep:per_block", "gmm_estep:fold_add", "gmm_estep:fold_iadd", "gmm_estep:fold_iadd_from_fresh", "gmm_estep:dask",
             "gmm_estep:transform", "stats_add:add", "stats_add:iadd"]
 RULE = ("a machine, a data set and a split of its rows into consecutive blocks (all 2^(n-1) compositions of small n, then random "
         "compositions) or an arbitrary row-to-block assignment; distinct = hash(machine, rows, split); non-trivial = >= 2 blocks and "
@@ -75,6 +75,20 @@ def impl_run(sc):
         n, px, pxx, ll = dask.compute(s.n, s.sum_px, s.sum_pxx, s.log_likelihood)
         return {"n": np.asarray(n), "px": np.asarray(px), "pxx": np.asarray(pxx), "ll": float(ll), "t": int(s.t)}
 
+    def fold_from_fresh(kind):
+        from bob.learn.em import GMMStats
+
+        acc = GMMStats(sc["C"], sc["D"])
+        if kind == "reset":
+            acc += g.acc_stats(blocks[0])
+            acc.reset()
+        elif kind == "zero_rows":
+            acc = g.acc_stats(blocks[0][:0])
+        for b in blocks:
+            acc += g.acc_stats(b)
+        return gen.stats_impl(acc)
+
+    o["fold_fresh"] = [core.impl(fold_from_fresh, k) for k in ("fresh", "reset", "zero_rows")]
     o["fold_add"] = core.impl(fold_add)
     o["fold_iadd"] = core.impl(fold_iadd)
     o["dask"] = core.impl(dask_stats)
@@ -115,6 +129,8 @@ def correspondence(ctx):
         cmp("gmm_estep:per_block", per, im["per"])
         cmp("gmm_estep:fold_add", folded, im["fold_add"])
         cmp("gmm_estep:fold_iadd", folded, im["fold_iadd"])
+        for ff in im["fold_fresh"]:
+            cmp("gmm_estep:fold_iadd_from_fresh", folded, ff)
         cmp("gmm_estep:dask", whole, im["dask"])
         cmp("gmm_estep:transform", per, im["transform"])
     # declared-shape check of + and +=
@@ -180,6 +196,17 @@ def oracle(sc):
                 acc = acc + s
         return gen.stats_impl(acc)
 
+    def from_fresh():
+        from bob.learn.em import GMMStats
+
+        acc = GMMStats(len(w), x.shape[1])
+        for b in blocks:
+            acc += g.acc_stats(b)
+        return gen.stats_impl(acc)
+
+    f = core.impl(from_fresh)
+    if isinstance(f, core.ImplError) or not gen.stats_close(f, whole, 1e-9, 1e-9):
+        return {"sig": "iadd-into-empty-container-differs", "what": f"+= of the blocks {sc['sizes']} into a fresh GMMStats: {f!r} vs whole {whole}"}
     for iadd in (False, True):
         f = core.impl(folded, iadd)
         if isinstance(f, core.ImplError) or not gen.stats_close(f, whole, 1e-9, 1e-9):
